@@ -204,6 +204,10 @@ REAL_REQS = [
     b"/python-dev.mbox\r\n", b"/python-dev.mbox|/MBOX-MESSAGE/2\r\n", b"/testdata.zip/pygopherd\r\n", b"/bucktooth\r\n",
     b"GET /wap/pygopherd HTTP/1.0\r\n\r\n", b"/nonexistent\r\n", b"/testfile.txt.gz\t!\r\n", b"/talsample.html.tal\r\n", b"/1/nonexistent\r\n",
     b"/pygopherd/searchtest.sh\tfirst query\r\n", b"/pygopherd/searchtest.sh\r\n", b"/pygopherd/cgitest.sh\r\n", b"/testfile.pyg\r\n",
+    # the same inner path in two archives, missing in the first one asked and present in the second (negative-lookup state must stay per archive)
+    b"/symlinktest.zip/pygopherd/ziponly\r\n", b"/testdata.zip/pygopherd/ziponly\r\n", b"/testdata.zip/subdir/linked2.txt\r\n", b"/symlinktest.zip/subdir/linked2.txt\r\n",
+    # the same relative name missing in one directory and present in its sibling
+    b"/pygopherd/testfile.txt\r\n",
 ]
 
 hx.scratch_testdata()
@@ -503,7 +507,7 @@ def obligations(tier, seed):
     obs.append(Ob(id="C03.6b-order-independent", body="harness.C03:body_order_independent", sig="i: int", pre=["0 <= i < %d" % len(REAL_REQS)], timeout=120,
                   desc="each scenario request gets the same reply in a forward and in a reverse sweep over all scenario requests in one process (process-wide state such as the environment, module tables, class attributes)",
                   bounds="%d requests, two sweeps (run at import; index symbolic)" % len(REAL_REQS), functions=["whole request path"]))
-    r1s = range(len(REAL_REQS)) if tier == "thorough" else [3, 4, 0, 8, 9, 13, 15]
+    r1s = range(len(REAL_REQS)) if tier == "thorough" else [3, 4, 0, 8, 9, 13, 15, 19, 21]
     for r1 in r1s:
         obs.append(Ob(id="C03.6-history[%d:%s]" % (r1, REAL_REQS[r1].split(b"\r")[0].decode()), body="harness.C03:body_history", sig="r1: int, r2: int",
                       pre=["r1 == %d" % r1, "0 <= r2 < %d" % len(REAL_REQS)], timeout=300,
